@@ -46,7 +46,7 @@ def undecided_and_findings(repo):
     return found, errors, und
 
 
-def verify(pid, n, src_root):
+def verify(pid, n, src_root, tag=''):
     src = f'{src_root}/{pid}'
     patch = f'{src}/ref_{pid}_{n}.diff'
     scripts = glob.glob(f'{src}/equiv_{pid}_{n}.*')
@@ -84,9 +84,13 @@ def verify(pid, n, src_root):
         ok = not missing and (not runnable or (
             meta['script_before'] == 0 and meta['script_after'] == 0))
         meta['confirmed'] = bool(ok)
+        # what the checks said when the refactoring arrived (kept; the
+        # fields above are rewritten by every recheck)
+        meta['at_arrival'] = dict(false_alarms=found,
+                                  analysis_errors=errors, undecided=und)
         print(json.dumps(meta, indent=1))
         if ok:
-            dst = os.path.join(HERE, 'benign', f'{pid}-{n}')
+            dst = os.path.join(HERE, 'benign', f'{pid}-{tag}{n}')
             os.makedirs(dst, exist_ok=True)
             shutil.copy(patch, os.path.join(dst, 'patch.diff'))
             shutil.copy(script, os.path.join(dst, name))
@@ -146,6 +150,9 @@ if __name__ == '__main__':
         src = '/tmp/wt5'
         if '--src' in sys.argv:
             src = sys.argv[sys.argv.index('--src') + 1]
-        sys.exit(verify(sys.argv[2], sys.argv[3], src))
+        tag = ''
+        if '--tag' in sys.argv:
+            tag = sys.argv[sys.argv.index('--tag') + 1]
+        sys.exit(verify(sys.argv[2], sys.argv[3], src, tag))
     elif sys.argv[1] == 'recheck':
         recheck(sys.argv[2] if len(sys.argv) > 2 else None)
